@@ -177,10 +177,10 @@ class Backfilling(TMGRSchedulingComponent):
                     continue
 
                 if uid not in info['tasks']:
-                    # this contradicts the task's assignment
+                    # early-bound tasks (pilot named by the application) are
+                    # not placed, and thus not accounted for, by this scheduler
                     self._log.debug('upd task  %s not in tasks', uid)
-                    self._log.error('bf: task %s on %s inconsistent', uid, pid)
-                    raise RuntimeError('inconsistent scheduler state')
+                    continue
 
                 # this task is now considered done
                 info['done'].append(uid)
